@@ -208,6 +208,52 @@ def duplicate_rows(ctx, functionals, prefix):
     return n
 
 
+def wrapped_solution_rows(ctx, functionals, prefix):
+    """the caller already knows the solution and only wants the implicit gradient attached to it: the functional is started AT the
+    solution with the smallest budget (minimize with gd / adam and maxiter=0 is the documented way).  Value = the given point,
+    gradients = those of a converged run from a generic initial guess, the initial guess (even if it requires grad) gets none."""
+    n = 0
+    ks = ["tg", "tg", "tg"]
+    with warnings.catch_warnings():
+        warnings.simplefilter("ignore")
+        for fname, variants in (("minimize", [dict(method="gd", maxiter=0), dict(method="adam", maxiter=0), dict(method="broyden1")]),
+                                ("rootfinder", [dict(method="broyden1"), dict(method="newton")]), ("equilibrium", [dict(method="anderson_acc"), dict(method="broyden1")])):
+            if fname not in functionals:
+                continue
+            fn = {"rootfinder": (xitorch.optimize.rootfinder, lambda y, *p: y - 0.3 * torch.tanh(y) - _use(ks, p)),
+                  "equilibrium": (xitorch.optimize.equilibrium, lambda y, *p: 0.3 * torch.tanh(y) + _use(ks, p)),
+                  "minimize": (xitorch.optimize.minimize, lambda y, *p: (0.5 * (y - _use(ks, p)) ** 2 + 0.1 * torch.log(torch.cosh(y))).sum())}[fname]
+            ps = [torch.tensor(v_, dtype=DT, requires_grad=True) for v_ in (0.7, -0.4, 1.3)]
+            yref = fn[0](fn[1], torch.zeros(2, dtype=DT), params=ps, method="broyden1", f_tol=1e-13, x_tol=1e-13)
+            w = torch.tensor([0.7, -1.1], dtype=DT)
+            gref = torch.autograd.grad((yref * w).sum(), ps, create_graph=True)
+            href = torch.autograd.grad(sum((x ** 2).sum() for x in gref), ps)
+            for opts in variants:
+                for y0_grad in (False, True):
+                    n += 1
+                    ctx.case(key=("wrapped-solution", fname, tuple(sorted(opts.items())), y0_grad))
+                    why = None
+                    try:
+                        y0 = yref.detach().clone().requires_grad_(y0_grad)
+                        y = fn[0](fn[1], y0, params=ps, **opts)
+                        g = torch.autograd.grad((y * w).sum(), ps, create_graph=True)
+                        h = torch.autograd.grad(sum((x ** 2).sum() for x in g), ps + ([y0] if y0_grad else []), allow_unused=True)
+                        if not torch.allclose(y.detach(), yref.detach(), atol=1e-9):
+                            why = "started at the solution, returned a point %.2e away from it" % float((y - yref).abs().max())
+                        elif not all(torch.allclose(a, b, atol=1e-7, rtol=1e-6) for a, b in zip(g, gref)):
+                            why = "first-order gradients differ from those of a converged run by %.2e" % max(float((a - b).abs().max()) for a, b in zip(g, gref))
+                        elif not all(torch.allclose(a, b, atol=1e-6, rtol=1e-5) for a, b in zip(h[:3], href)):
+                            why = "second-order gradients differ from those of a converged run by %.2e" % max(float((a - b).abs().max()) for a, b in zip(h[:3], href))
+                        elif y0_grad and h[3] is not None and float(h[3].abs().max()) != 0.0:
+                            why = "the initial guess received a gradient in the second backward pass"
+                    except Exception as e:
+                        why = "raised %s: %s" % (type(e).__name__, str(e)[:140])
+                    if why:
+                        ctx.violation("%s/wrapped-solution/%s" % (prefix, fname), "%s(%s) started at the known solution (initial guess %s grad): %s"
+                                      % (fname, opts, "requires" if y0_grad else "without", why), {"f": fname, "opts": {k_: str(v_) for k_, v_ in opts.items()}})
+    return n
+
+
 def shared_leaf_rows(ctx, functionals, prefix):
     """limits / time grid / initial state computed from the same leaf as the parameter: total derivative against closed forms"""
     n = 0
@@ -295,4 +341,4 @@ def replay(ctx, functionals, prefix):
                 ctx.violation("%s/gradpattern/%s" % (prefix, fname), "%s with extra parameters of kinds %s (tg: tensor requiring grad, tu: unused tensor requiring grad, tn: tensor without grad, num: number): %s"
                               % (fname, ks, why), {"f": fname, "ks": ks})
     return n + dependent_rows(ctx, functionals, prefix) + precision_rows(ctx, functionals, prefix) + shared_leaf_rows(ctx, functionals, prefix) \
-        + duplicate_rows(ctx, functionals, prefix)
+        + duplicate_rows(ctx, functionals, prefix) + wrapped_solution_rows(ctx, functionals, prefix)
